@@ -1,3 +1,342 @@
-/- C17 — property theorems (stub: the property is not claimed yet). -/
+/-
+  C17 — Pickled and cloned documents are faithful, independent copies.
+
+  Property theorems only.  Model: AHP/Model/Pickle.lean (the definitions the driver executes); lemmas and the
+  specification function `relabel` (the copy as it should be): AHP/Lemmas/Pickle.lean.
+
+  Domain predicate `WFT t` (decidable data conditions, the analogue of "a C01 tree"): every element has a
+  lower-case name and a well-formed attribute store (`Attrs.WF`: unique lower-case valid keys, the `style` key
+  holds the style object, `spellcheck`-like keys hold a normalised string, and the two string round trips
+  `classTokens (className cls) = cls`, `styleToDict (styleStr sty) = sty` hold of the stored data) in which
+  `class`, once synchronised, is the last entry (`Attrs.ClassLast`; see `classLast_needed` for why).
+  `ScOK t` is the part of C04's invariant a copy can only inherit ("self-closing ⇒ no content").
+
+  Object identity is the `oid`; "fresh" means `n` is above every object id in use, as the allocator guarantees.
+  Python-level aliasing (weak references, pickle memo, protocols) is outside a value model: the oracle of the
+  correspondence check covers it on the real objects.
+-/
+import AHP.Lemmas.Pickle
+import AHP.Lemmas.PickleStr
+import AHP.Lemmas.PickleIdx
 namespace AHP.C17
+open AHP AHP.Pk
+
+/-! ### C17a — `pickle.loads(pickle.dumps(t))` of a detached tree -/
+
+/-- Unpickling never raises on a well-formed tree and yields exactly the specified copy. -/
+theorem unpickle_eq (ρ : Option Nat → Option Nat) (t : DN) (h : WFT t) (n : Nat) :
+    roundTrip ρ t n = some ((relabel none (ρ (DN.ownerOf t)) t n).1, n + DN.size t) := by
+  unfold roundTrip
+  rw [load_spec ρ t h n, ← relabel_snd none (ρ (DN.ownerOf t)) t n]
+
+/-- C17a, all clauses for a tree: the copy exists, consumes exactly `size t` fresh objects, serialises
+    identically, has the same uids element for element and the same per-element name / attribute list /
+    self-closing flag, is made of the fresh objects `n, n+1, …` in document order (hence pairwise distinct and
+    none of them an object of the original), and is itself well-formed. -/
+theorem unpickle_faithful (ρ : Option Nat → Option Nat) (t : DN) (h : WFT t) (n : Nat) :
+    ∃ t', roundTrip ρ t n = some (t', n + DN.size t) ∧
+      DN.html t' = DN.html t ∧
+      DN.uids t' = DN.uids t ∧
+      (DN.elems t').map elView = (DN.elems t).map elView ∧
+      DN.oids t' = List.range' n (DN.size t) ∧
+      WFT t' := by
+  refine ⟨_, unpickle_eq ρ t h n, html_relabel _ _ t h n, uids_relabel _ _ t n, views_relabel _ _ t h n,
+    oids_relabel _ _ t n, WFT_relabel _ _ t h n⟩
+
+/-- C17a, links: in the copy every `parentNode` is the containing element *of the copy*, the root has none,
+    `children` and `text` mirror the block list, and every `ownerDocument` is what the root's reference
+    resolves to — C04's invariant, given that the original kept "self-closing ⇒ no content". -/
+theorem unpickle_links (ρ : Option Nat → Option Nat) (t : DN) (h : WFT t) (hs : ScOK t) (n : Nat) (t' : DN) (m : Nat)
+    (e : roundTrip ρ t n = some (t', m)) : OK none (ρ (DN.ownerOf t)) t' := by
+  rw [unpickle_eq ρ t h n] at e
+  cases e
+  exact OK_relabel none _ t hs n
+
+/-- the objects of the copy are pairwise distinct -/
+theorem unpickle_oids_nodup (ρ : Option Nat → Option Nat) (t : DN) (h : WFT t) (n : Nat) (t' : DN) (m : Nat)
+    (e : roundTrip ρ t n = some (t', m)) : (DN.oids t').Nodup := by
+  rw [unpickle_eq ρ t h n] at e
+  cases e
+  rw [oids_relabel]; exact List.nodup_range'
+
+/-- C17b, disjointness: no object of the copy is an object of the original (or of anything allocated before). -/
+theorem unpickle_disjoint (ρ : Option Nat → Option Nat) (t : DN) (h : WFT t) (n : Nat) (t' : DN) (m : Nat)
+    (e : roundTrip ρ t n = some (t', m)) (used : List Nat) (hfresh : ∀ o ∈ used, o < n) :
+    ∀ o ∈ DN.oids t', o ∉ used := by
+  rw [unpickle_eq ρ t h n] at e
+  cases e
+  intro o ho hu
+  rw [oids_relabel, List.mem_range'_1] at ho
+  have := hfresh o hu
+  omega
+
+/-- C17b, closure: the copy can be pickled again, with any protocol's memo `ρ'`; the second copy is as
+    faithful to the original as the first. -/
+theorem repickle (ρ ρ' : Option Nat → Option Nat) (t : DN) (h : WFT t) (n : Nat) (t' : DN) (m : Nat)
+    (e : roundTrip ρ t n = some (t', m)) :
+    ∃ t'', roundTrip ρ' t' m = some (t'', m + DN.size t') ∧ DN.html t'' = DN.html t ∧ DN.uids t'' = DN.uids t := by
+  obtain ⟨t1, e1, h1, h2, _, _, h5⟩ := unpickle_faithful ρ t h n
+  rw [e1] at e; cases e
+  obtain ⟨t2, e2, g1, g2, _, _, _⟩ := unpickle_faithful ρ' t' h5 (n + DN.size t)
+  exact ⟨t2, e2, g1.trans h1, g2.trans h2⟩
+
+/-! ### C17b — edits are addressed to objects: one side's edit finds nothing to change on the other -/
+
+mutual
+theorem mapAt_not_mem (o : Nat) (f : DN → DN) (t : DN) (h : o ∉ DN.oids t) : mapAt o f t = t := by
+  match t with
+  | .text s => simp [mapAt]
+  | .el o1 u nm a sc blocks ch tx p ow =>
+    simp only [DN.oids, List.mem_cons, not_or] at h
+    have h1 : ¬ o1 = o := fun e => h.1 e.symm
+    simp only [mapAt, h1, if_false]
+    rw [mapAtL_not_mem o f blocks h.2]
+theorem mapAtL_not_mem (o : Nat) (f : DN → DN) (bs : List DN) (h : o ∉ DN.oidsL bs) : mapAtL o f bs = bs := by
+  match bs with
+  | [] => simp [mapAtL]
+  | b :: bs =>
+    simp only [DN.oidsL, List.mem_append, not_or] at h
+    simp only [mapAtL]
+    rw [mapAt_not_mem o f b h.1, mapAtL_not_mem o f bs h.2]
+end
+
+/-- An edit of any kind on an element of the copy leaves the original exactly as it was … -/
+theorem edit_copy_leaves_original (ρ : Option Nat → Option Nat) (t : DN) (h : WFT t) (n : Nat) (t' : DN) (m : Nat)
+    (e : roundTrip ρ t n = some (t', m)) (hfresh : ∀ o ∈ DN.oids t, o < n)
+    (target : Nat) (ht : target ∈ DN.oids t') (oid uid : Nat) (ed : Edit) :
+    applyEdit target oid uid ed t = t := by
+  have hd := unpickle_disjoint ρ t h n t' m e (DN.oids t) hfresh target ht
+  cases ed <;> simp only [applyEdit] <;> (try split) <;> first | exact mapAt_not_mem _ _ _ hd | rfl
+
+/-- … and an edit on an element of the original leaves the copy exactly as it was. -/
+theorem edit_original_leaves_copy (ρ : Option Nat → Option Nat) (t : DN) (h : WFT t) (n : Nat) (t' : DN) (m : Nat)
+    (e : roundTrip ρ t n = some (t', m)) (hfresh : ∀ o ∈ DN.oids t, o < n)
+    (target : Nat) (ht : target ∈ DN.oids t) (oid uid : Nat) (ed : Edit) :
+    applyEdit target oid uid ed t' = t' := by
+  have hd : target ∉ DN.oids t' := fun hm => unpickle_disjoint ρ t h n t' m e (DN.oids t) hfresh target hm ht
+  cases ed <;> simp only [applyEdit] <;> (try split) <;> first | exact mapAt_not_mem _ _ _ hd | rfl
+
+/-! ### C17a for parsers -/
+
+theorem inner_relabel (par own : Option Nat) (t : DN) (h : WFT t) (n : Nat) : DN.inner (relabel par own t n).1 = DN.inner t := by
+  cases t with
+  | text s => simp [relabel, DN.inner]
+  | el o u nm a sc blocks ch tx p ow =>
+    simp only [WFT] at h
+    simp only [relabel, DN.inner]
+    rw [htmlL_relabelL _ _ blocks h.2.2.2]
+
+/-- Unpickling a parser: a new parser object `n` that kept the doctype, has its `reset` hook, serialises
+    identically; its root is the faithful copy of the root made of the next fresh objects, with the same uids,
+    and — when the original's root was owned by the original parser — every element of the copy is owned by the
+    *new* parser and linked inside the copy. -/
+theorem parser_unpickle (p : Parser) (r : DN) (hr : p.root = some r) (h : WFT r) (n : Nat) :
+    ∃ p' r', p.roundTrip n = some (p', n + 1 + DN.size r) ∧
+      p'.oid = n ∧ p'.doctype = p.doctype ∧ p'.hasReset = true ∧ p'.html = p.html ∧
+      p'.root = some r' ∧ DN.uids r' = DN.uids r ∧ DN.oids r' = List.range' (n + 1) (DN.size r) ∧ WFT r' ∧
+      (DN.ownerOf r = some p.oid → ScOK r → OK none (some n) r') := by
+  have e := load_spec (fun o => if o = some p.oid then some n else o) r h (n + 1)
+  refine ⟨{ oid := n, root := some (relabel none ((fun o => if o = some p.oid then some n else o) (DN.ownerOf r)) r (n + 1)).1,
+            doctype := p.doctype, hasReset := true,
+            index := p.index.map (Index.remap ((DN.oids r).zip
+              (DN.oids (relabel none ((fun o => if o = some p.oid then some n else o) (DN.ownerOf r)) r (n + 1)).1))) },
+          (relabel none ((fun o => if o = some p.oid then some n else o) (DN.ownerOf r)) r (n + 1)).1, ?_, ?_⟩
+  · unfold Parser.roundTrip
+    simp only [hr, e]
+    rw [relabel_snd]
+  · refine ⟨rfl, rfl, rfl, ?_, rfl, uids_relabel _ _ r (n + 1), oids_relabel _ _ r (n + 1), WFT_relabel _ _ r h (n + 1), ?_⟩
+    · unfold Parser.html
+      simp only [hr]
+      cases r with
+      | text s => simp [relabel]
+      | el o u nm a sc blocks ch tx pp ow =>
+        have hi := fun own => inner_relabel none own (.el o u nm a sc blocks ch tx pp ow) h (n + 1)
+        have hh := fun own => html_relabel none own (.el o u nm a sc blocks ch tx pp ow) h (n + 1)
+        simp only [relabel] at hi hh ⊢
+        rw [hi, hh]
+    · intro ho hs
+      simp only [ho, if_true]
+      exact OK_relabel none (some n) r hs (n + 1)
+
+/-- A parser that has parsed nothing pickles to a parser that has parsed nothing (and can parse). -/
+theorem parser_unpickle_empty (p : Parser) (hr : p.root = none) (n : Nat) :
+    ∃ p', p.roundTrip n = some (p', n + 1) ∧ p'.root = none ∧ p'.hasReset = true ∧ p'.doctype = p.doctype := by
+  refine ⟨{ p with oid := n, hasReset := true }, ?_, hr, rfl, rfl⟩
+  unfold Parser.roundTrip
+  simp [hr]
+
+/-- Pickling leaves the original parser's `reset` hook in place (the repaired `__getstate__`). -/
+theorem getstate_keeps_reset (p : Parser) : p.afterGetstate.hasReset = p.hasReset := rfl
+
+/-! #### working indexes: references are carried to the same document position of the copy -/
+
+theorem lookup_zip_range' (xs : List Nat) (s x : Nat) (h : x ∈ xs) :
+    (xs.zip (List.range' s xs.length)).lookup x = some (s + xs.idxOf x) := by
+  induction xs generalizing s with
+  | nil => simp at h
+  | cons y ys ih =>
+    simp only [List.length_cons, List.range'_succ, List.zip_cons_cons, List.lookup_cons]
+    by_cases e : x = y
+    · subst e; simp
+    · have hx : x ∈ ys := by simpa [e] using h
+      have e' : (x == y) = false := by simp [e]
+      have e2 : (y == x) = false := by rw [beq_eq_false_iff_ne]; exact fun h => e h.symm
+      rw [e', ih (s + 1) hx]
+      simp [List.idxOf_cons, e2]
+      omega
+
+mutual
+theorem length_oids (t : DN) : (DN.oids t).length = DN.size t := by
+  match t with
+  | .text s => simp [DN.oids, DN.size]
+  | .el o u nm a sc blocks ch tx p ow => simp only [DN.oids, DN.size, List.length_cons]; rw [length_oidsL]; omega
+theorem length_oidsL (bs : List DN) : (DN.oidsL bs).length = DN.sizeL bs := by
+  match bs with
+  | [] => simp [DN.oidsL, DN.sizeL]
+  | b :: bs => simp only [DN.oidsL, DN.sizeL, List.length_append]; rw [length_oids, length_oidsL]
+end
+
+/-- An index entry (or any other object reference held by the parser) that pointed at the `k`-th element of
+    the original document points, in the unpickled parser, at the `k`-th element of the copy: the pickle memo
+    `remap` sends it to the object `n + 1 + k`, which is `oids r'` at position `k`. -/
+theorem index_reference_carried (r : DN) (h : WFT r) (own : Option Nat) (n : Nat) (x : Nat) (hx : x ∈ DN.oids r) :
+    let r' := (relabel none own r (n + 1)).1
+    remap ((DN.oids r).zip (DN.oids r')) x = n + 1 + (DN.oids r).idxOf x ∧
+    (DN.oids r')[(DN.oids r).idxOf x]? = some (n + 1 + (DN.oids r).idxOf x) := by
+  intro r'
+  have ho : DN.oids r' = List.range' (n + 1) (DN.oids r).length := by
+    rw [length_oids]; exact oids_relabel none own r (n + 1)
+  constructor
+  · unfold remap
+    rw [ho, lookup_zip_range' _ _ _ hx]
+  · rw [ho]
+    have : (DN.oids r).idxOf x < (DN.oids r).length := List.idxOf_lt_length_of_mem hx
+    simp [List.getElem?_range', this]
+
+/-- **Working indexes (IdxInv)**: if the index of the original parser is the index of its document — as after any
+    parse or `reindex()` — then the index of the unpickled parser is the index of *its* document: every map, every
+    key, every list in the same order, every entry an element of the copy. -/
+theorem indexed_parser_unpickle (p : Parser) (r : DN) (hr : p.root = some r) (h : WFT r) (hn : (DN.oids r).Nodup)
+    (ids names classes tags : Bool) (attrNames : List Str)
+    (hix : p.index = some (indexDoc ids names classes tags attrNames r)) (n : Nat) :
+    ∃ p' r', p.roundTrip n = some (p', n + 1 + DN.size r) ∧ p'.root = some r' ∧
+      p'.index = some (indexDoc ids names classes tags attrNames r') := by
+  have e := load_spec (fun o => if o = some p.oid then some n else o) r h (n + 1)
+  refine ⟨{ oid := n, root := some (relabel none ((fun o => if o = some p.oid then some n else o) (DN.ownerOf r)) r (n + 1)).1,
+            doctype := p.doctype, hasReset := true,
+            index := p.index.map (Index.remap ((DN.oids r).zip
+              (DN.oids (relabel none ((fun o => if o = some p.oid then some n else o) (DN.ownerOf r)) r (n + 1)).1))) },
+          (relabel none ((fun o => if o = some p.oid then some n else o) (DN.ownerOf r)) r (n + 1)).1, ?_, rfl, ?_⟩
+  · unfold Parser.roundTrip
+    simp only [hr, e]
+    rw [relabel_snd]
+  · simp only [hix, Option.map_some]
+    rw [remap_indexDoc ids names classes tags attrNames r hn]
+
+/-! ### C17c — cloneNode / copy.copy / copy.deepcopy -/
+
+/-- The clone is built by the constructor from the original's name, attribute list and self-closing flag:
+    it is childless (one empty text block, no children, empty text), detached (no parent, no owner), carries
+    the fresh identities it was given and the rebuilt attribute store. -/
+theorem clone_eq (o u : Nat) (nm : Str) (a : Attrs) (sc : Bool) (blocks : List DN) (ch : List Nat) (tx : Str)
+    (p ow : Option Nat) (hn : lower nm = nm) (ha : Attrs.WF a) (oid' uid' : Nat) :
+    clone oid' uid' (.el o u nm a sc blocks ch tx p ow) =
+      some (.el oid' uid' nm (Attrs.fresh a) (if !sc && voidTags.contains nm then true else sc) [.text []] [] [] none none) := by
+  simp only [clone, DN.mk, Attrs.init_attrsList a ha, hn]
+
+/-- … unequal to the original under `==` exactly because its uid is fresh. -/
+theorem clone_not_eq (o u : Nat) (nm : Str) (a : Attrs) (sc : Bool) (blocks : List DN) (ch : List Nat) (tx : Str)
+    (p ow : Option Nat) (hn : lower nm = nm) (ha : Attrs.WF a) (oid' uid' : Nat) (hfresh : uid' ≠ u) (c : DN)
+    (e : clone oid' uid' (.el o u nm a sc blocks ch tx p ow) = some c) :
+    tagEq (.el o u nm a sc blocks ch tx p ow) c = false ∧ tagEq c (.el o u nm a sc blocks ch tx p ow) = false := by
+  rw [clone_eq o u nm a sc blocks ch tx p ow hn ha] at e
+  cases e
+  simp [tagEq, hfresh]
+  exact fun h => hfresh h.symm
+
+/-- … tag-equal to its original in both directions (`isTagEqual`: same name, same attribute names, same value
+    per name — whatever the position of `class`). -/
+theorem clone_tag_equal (o u : Nat) (nm : Str) (a : Attrs) (sc : Bool) (blocks : List DN) (ch : List Nat) (tx : Str)
+    (p ow : Option Nat) (hn : lower nm = nm) (ha : Attrs.WF a) (oid' uid' : Nat) (c : DN)
+    (e : clone oid' uid' (.el o u nm a sc blocks ch tx p ow) = some c) :
+    isTagEqual (.el o u nm a sc blocks ch tx p ow) c = true ∧ isTagEqual c (.el o u nm a sc blocks ch tx p ow) = true := by
+  rw [clone_eq o u nm a sc blocks ch tx p ow hn ha] at e
+  cases e
+  simp only [isTagEqual, Bool.and_eq_true, beq_self_eq_true, true_and, List.all_eq_true, List.contains_iff_mem,
+    Attrs.getForEq_fresh a ha, Attrs.GVal.eq_refl, implies_true, and_true]
+  refine ⟨⟨fun k hk => ?_, fun k hk => ?_⟩, ⟨fun k hk => ?_, fun k hk => ?_⟩⟩
+  · exact (Attrs.mem_keys_handle_fresh a ha k).mpr hk
+  · exact (Attrs.mem_keys_handle_fresh a ha k).mp hk
+  · exact (Attrs.mem_keys_handle_fresh a ha k).mp hk
+  · exact (Attrs.mem_keys_handle_fresh a ha k).mpr hk
+
+/-- … and renders the same start tag (name and attributes) whenever the original's `class` is in its
+    canonical last position — always, up to the order of attributes (`clone_tag_equal`). -/
+theorem clone_same_start_tag (nm : Str) (a : Attrs) (sc : Bool) (ha : Attrs.WF a) (hl : Attrs.ClassLast a) :
+    Attrs.startTag nm (Attrs.fresh a) sc = Attrs.startTag nm a sc := Attrs.startTag_fresh nm a sc ha hl
+
+/-! ### the two string round trips, from a syntactic description of the stored data -/
+
+/-- class tokens that are non-empty and free of white space survive `' '.join` → `stripWordsOnly` → `split(' ')` -/
+theorem class_round_trip (cls : List Str) (h : ∀ t ∈ cls, Tok t) : classTokens (className cls) = cls :=
+  classTokens_className cls h
+
+/-- style maps with unique names whose properties are `PropOK` (lower-case non-empty name without `:`/`;` and
+    without white space at its ends; non-empty value without `;` and without white space at its ends) survive
+    `_asStr` → `styleToDict` -/
+theorem style_round_trip (sty : List (Str × Str)) (h : ∀ q ∈ sty, PropOK q) (hn : (dkeys sty).Nodup) :
+    styleToDict (styleStr sty) = sty :=
+  styleToDict_styleStr sty h hn
+
+/-- hence `Attrs.WF` follows from purely syntactic conditions on the store -/
+theorem wf_of_syntactic (a : Attrs) (hn : (dkeys a.dict).Nodup)
+    (hnames : ∀ p ∈ a.dict, validAttrName p.1 = true ∧ lower p.1 = p.1)
+    (hstyle : ∀ p ∈ a.dict, (p.1 = sStyle → p.2 = DVal.style) ∧ (p.1 ≠ sStyle → p.2 ≠ DVal.style))
+    (hbool : ∀ p ∈ a.dict, boolStrAttrs.contains p.1 = true → p.1 ≠ sClass → ∃ s, p.2 = DVal.str s ∧ convBoolStr (some s) = s)
+    (hcls : ∀ t ∈ a.cls, Tok t) (hsty : ∀ q ∈ a.sty, PropOK q) (hsn : (dkeys a.sty).Nodup) : Attrs.WF a :=
+  ⟨hn, hnames, hstyle, hbool, class_round_trip a.cls hcls, style_round_trip a.sty hsty hsn⟩
+
+/-! ### non-vacuity and the boundary of the domain -/
+
+/-- a small document: `<div id="x" class="a b" style="color: red">t<br /></div>` as the constructor builds it -/
+def sample : DN :=
+  .el 0 0 (str "div")
+    ⟨[(str "id", .str (str "x")), (sStyle, .style)], [str "a", str "b"], [(str "color", str "red")]⟩ false
+    [.text [], .text (str "t"),
+     .el 1 1 (str "br") Attrs.empty true [.text []] [] [] (some 0) none]
+    [1] (str "t") none none
+
+example : DN.html sample = str "<div id=\"x\" style=\"color: red\" class=\"a b\" >t<br /></div>" := by decide
+
+/-- the hypotheses of the theorems are satisfiable by a tree with class, style, text and a void child … -/
+theorem wf_empty : Attrs.WF Attrs.empty :=
+  ⟨by decide, by decide, by decide, fun p hp => by simp [Attrs.empty] at hp, by decide, by decide⟩
+
+theorem sample_wf : WFT sample := by
+  unfold sample
+  simp only [WFT, WFTL]
+  refine ⟨by decide, ⟨by decide, by decide, by decide, ?_, by decide, by decide⟩, by unfold Attrs.ClassLast; decide,
+    trivial, trivial, ⟨by decide, wf_empty, by unfold Attrs.ClassLast; decide, trivial, trivial⟩, trivial⟩
+  intro p hp hb
+  simp only [List.mem_cons, List.mem_nil_iff, or_false] at hp
+  rcases hp with rfl | rfl <;> exact absurd hb (by decide)
+
+/-- … and its copy is computed, not assumed: same serialisation, new objects 2 and 3. -/
+example : (roundTrip id sample 2).map (fun r => (DN.html r.1, DN.oids r.1, DN.uids r.1, r.2)) =
+    some (str "<div id=\"x\" style=\"color: red\" class=\"a b\" >t<br /></div>", [2, 3], [0, 1], 4) := by decide
+
+/-- Why `ClassLast` is a hypothesis: a store in which an attribute was added after `class` had been
+    synchronised (`class` then `title`) is rebuilt with `class` last — same mapping, different order. -/
+def lateAttr : Attrs := ⟨[(sClass, .str (str "a")), (str "title", .str (str "new"))], [str "a"], []⟩
+
+theorem classLast_needed :
+    Attrs.WF lateAttr ∧ ¬ Attrs.ClassLast lateAttr ∧
+    Attrs.startTag (str "div") lateAttr false = str "<div class=\"a\" title=\"new\" >" ∧
+    (Attrs.init (Attrs.attrsList lateAttr)).map (fun a => Attrs.startTag (str "div") a false)
+      = some (str "<div title=\"new\" class=\"a\" >") := by
+  refine ⟨⟨by decide, by decide, by decide, ?_, by decide, by decide⟩, by unfold Attrs.ClassLast; decide, by decide, by decide⟩
+  intro p hp hb
+  simp only [lateAttr, List.mem_cons, List.mem_nil_iff, or_false] at hp
+  rcases hp with rfl | rfl <;> exact absurd hb (by decide)
+
 end AHP.C17
